@@ -117,13 +117,23 @@ BAD_MEMBERS = {
 
 def gen_fault(ch):
     models, parts = gen_parts(ch, ch.pick([1, 2, 3, 4]))
-    kind = ch.pick(['member-type', 'member-sanity', 'member-syntax', 'duplicate-key', 'unknown-key', 'trailing-annotation', 'empty', 'member-sanity2', 'broken-annotation-line'])
+    kind = ch.pick(['member-type', 'member-sanity', 'member-syntax', 'duplicate-key', 'unknown-key', 'trailing-annotation', 'empty', 'member-sanity2', 'broken-annotation-line', 'member-two-faults'])
     pos = ch.int(0, len(parts))
     if kind == 'empty':
         return {'file': ch.pick(['', ' ', '\n\n', '\t \r\n']), 'expect': 'syntax', 'fault': kind, 'position': 0, 'count': 0}
     if kind in ('member-type', 'member-sanity', 'member-sanity2'):
         bad = mast.render(BAD_MEMBERS[kind.split('-')[1]])
         expect = 'type' if kind == 'member-type' else 'sanity'
+        parts.insert(pos, bad)
+    elif kind == 'member-two-faults':
+        # one member with two faults of different kinds - a type or sanity error on the left, a syntax error further right:
+        # the file must be rejected with the class this member raises on its own (whichever fault the parser meets first)
+        first = ch.pick(['globally: no a {x + "s" > 1}', 'globally: no a {not 42}', 'globally: a as X causes b as X', 'globally: no (a or a)',
+                         'globally: no a {x > @Zq.x}', 'globally: some a {len(1) > 0}', 'globally: no a {(x + 1) and y}', 'after p {not (x + 1)}: no a'])  # fmt: skip
+        bad = first + ch.pick([' within 5 parsecs', ' causes', ' }', ' within', ' or', ' {', ' ;'])
+        expect = lib.outcome('property', bad)[0]
+        if expect not in ('syntax', 'type', 'sanity'):
+            raise core.HarnessError(f'the member {bad!r} is not rejected on its own: {expect}')
         parts.insert(pos, bad)
     elif kind == 'member-syntax':
         bad = ch.pick(['globally: = = no a', 'globally no a', 'after: no a', 'globally: no a {', 'globally: a causes', 'globally: no a within 3', 'globally: no (a or)'])
